@@ -20,7 +20,7 @@
 EXTENDS Integers, Sequences, TLC
 CONSTANTS MaxBatch,       \* contents per group
           BigBatches,     \* sizes of additional large batches of plain transfers
-          Kinds,          \* subset of {"transaction", "transaction_kt", "reveal", "delegation", "origination"}
+          Kinds,          \* subset of {"transaction", "transaction_kt", "reveal", "delegation", "origination", "origination_big"}
           KeyKinds,       \* subset of {"tz1", "tz2", "tz3", "tz4"}
           Modes,          \* subset of {"fill", "autofill"}
           SimPool,        \* simulation results for autofill, indices into Sims
@@ -59,6 +59,7 @@ Body(kind, j, kk) ==
     [] kind = "reveal" -> 1 + PkLen(kk) + 1
     [] kind = "delegation" -> 1 + 21
     [] kind = "origination" -> ZSize(Amount(j) - 1) + 1 + ScriptSize
+    [] kind = "origination_big" -> ZSize(Amount(j) - 1) + 1 + ScriptSize + 400     \* the same script with 100 x { DUP ; DROP } more code: contents of very different sizes in one batch
 ContentSize(c, j, kk) == 1 + 21 + ZSize(c.fee) + ZSize(c.counter) + ZSize(c.gas) + ZSize(c.storage) + Body(c.kind, j, kk)
 
 \* ---- fees.py ----
@@ -68,10 +69,11 @@ DefGas(kind, kk, hard) ==
   CASE kind = "reveal" -> (CASE kk = "tz1" -> 176 [] kk = "tz2" -> 162 [] kk = "tz3" -> 1101 [] kk = "tz4" -> 1681)
     [] kind = "delegation" -> 1000
     [] kind = "origination" -> hard
+    [] kind = "origination_big" -> hard
     [] kind = "transaction" -> 3040
     [] kind = "transaction_kt" -> hard
 DefStorage(kind, hard) ==
-  CASE kind = "reveal" -> 0 [] kind = "delegation" -> 0 [] kind = "origination" -> hard
+  CASE kind = "reveal" -> 0 [] kind = "delegation" -> 0 [] kind = "origination" -> hard [] kind = "origination_big" -> hard
     [] kind = "transaction" -> 257 [] kind = "transaction_kt" -> hard
 \* calculate_fee(content, consumed_gas, extra_size, reserve = 10): the content still carries fee 0
 CalcFee(c, j, kk, gas, extra) == 100 + (ContentSize([c EXCEPT !.fee = 0], j, kk) + extra) + ((100 * gas) \div 1000) + 10
@@ -105,7 +107,7 @@ AutoStep ==
   /\ pc = "auto"
   /\ LET kind == kinds[i]
          s == SimOf(i)
-         reserve == IF kind \in {"origination", "transaction", "transaction_kt"} THEN 100 ELSE 0
+         reserve == IF kind \in {"origination", "origination_big", "transaction", "transaction_kt"} THEN 100 ELSE 0
          gas == CeilDiv(s[1], 1000) + s[4] * CeilDiv(IntMilligas, 1000) + reserve     \* every result of the content counts, the internal ones too
          sto == s[2] + (IF s[3] THEN 257 ELSE 0) + reserve
          c == [cont[i] EXCEPT !.gas = gas, !.storage = sto, !.fee = 0] IN
